@@ -95,6 +95,27 @@ func (z *zipCtx) config(inline bool) paths.Config {
 							arg = "fresh"
 						case rs == "nil":
 							arg = "nil"
+						default:
+							// storage owned by the sender (a field, or an append onto a field's backing array)
+							// is rewritten by the next flush just like the buffer itself
+							base := ast.Unparen(rhs)
+							if call, ok := base.(*ast.CallExpr); ok && len(call.Args) >= 1 {
+								if id, ok := call.Fun.(*ast.Ident); ok && id.Name == "append" {
+									base = ast.Unparen(call.Args[0])
+								}
+							}
+							for {
+								if se, ok := base.(*ast.SliceExpr); ok {
+									base = ast.Unparen(se.X)
+									continue
+								}
+								break
+							}
+							if sel, ok := base.(*ast.SelectorExpr); ok {
+								if id, ok := ast.Unparen(sel.X).(*ast.Ident); ok && id.Name == z.recv {
+									arg = "alias:" + sel.Sel.Name
+								}
+							}
 						}
 						out = append(out, paths.Event{Kind: kind, Arg: arg, Pos: v.Pos()})
 					case strings.HasSuffix(ls, ".RecordCount"):
